@@ -135,7 +135,7 @@ func c13Run(c *Ctx) {
 		lit := "{" + strings.Join(props, ", ") + "}"
 		plit := "{" + strings.Join(plain, ", ") + "}"
 		var src string
-		switch r.Intn(10) {
+		switch r.Intn(12) {
 		case 0: // side effects of initialisers in source order
 			src = Lines(Fun("p", "t, v", " "+Print("t")+" "+Ret("v")+" "), Var("o", lit), Print("o"))
 		case 1: // repeated listings of an unmodified object
@@ -154,6 +154,11 @@ func c13Run(c *Ctx) {
 			src = Lines(Fun("p", "t, v", " "+Print("t")+" "+Ret("v")+" "), Var("o", "{"+perm[0]+": "+lit+", "+perm[1]+": ["+lit+"]}"), Print("o"))
 		case 8: // self-containing values holding multi-key objects, printed several times
 			src = Lines(Var("o", plit), "o.self = o;", Var("arr", "[o, "+plit+", 1]"), "arr[2] = arr;", Print("o"), Print("arr"), Print("o"), Print("arr"), Var("x", plit), Var("y", "{back: x, "+plain[0]+"}"), "x.fwd = y;", Print("x"), Print("[y, x, y]"))
+		case 9: // property names that are canonically equivalent spellings of each other; deletes by a third spelling
+			src = Lines(Var("o", "{}"), "o.a\u0323\u0302 = 1;", "o.\u1ea1\u0302 = 2;", "o.b = 3;", "o.c = 4;", "o.\u09df = 5;", "o.\u09af\u09bc = 6;", Print(BI("keys", "o")), Print(BI("values", "o")),
+				Var("t", "{a\u0323\u0302: 1, \u1ea1\u0302: 2, m: 0, n: 0, p: 0}"), Print("t"), BI("delete", "t", "\"\u1ead\"")+";", Print("t"), Print(BI("keys", "t")))
+		case 10: // min / max handed an object (not an array) whose values make the result order-sensitive
+			src = Lines(Var("o", "{a: "+BI("sqrt", "-1")+", b: 1, c: 2, d: 0, e: (-0), f: 3}"), Print(BI("values", "o")), Print(BI("min", BI("values", "o"))), Print(BI("max", "o")), Print(BI("min", "o")))
 		default: // listing used as data
 			src = Lines(Var("o", plit), Var("acc", `""`), Var("ks", BI("keys", "o")), For(Var("i", "0"), "i < "+BI("len", "ks"), "i = i + 1", "{ acc = acc + ks[i] + \",\"; }"), Print("acc"))
 		}
